@@ -626,6 +626,42 @@ impl Stream {
     }
 }
 
+#[cfg(feature = "verif")]
+impl Stream {
+    /// Report disagreements between the entry vector, the cached metadata and
+    /// the consumer groups' pending bookkeeping (empty result = consistent).
+    pub fn verif_check_invariants(&self) -> Vec<String> {
+        let mut out = Vec::new();
+        {
+            let data = self.data.lock().unwrap();
+            for w in data.entries.windows(2) {
+                if w[0].id >= w[1].id {
+                    out.push(format!("stream entries not strictly ascending: {} then {}", w[0].id, w[1].id));
+                }
+            }
+            let len = self.length.load(Ordering::SeqCst);
+            if len != data.entries.len() {
+                out.push(format!("stream length counter {} but {} entries", len, data.entries.len()));
+            }
+            if let Some(last) = data.entries.last() {
+                if last.id > data.last_id {
+                    out.push(format!("stream last_id {} below stored entry {}", data.last_id, last.id));
+                }
+            }
+            let atomic_last = StreamId::new(self.last_id_millis.load(Ordering::SeqCst), self.last_id_seq.load(Ordering::SeqCst));
+            if atomic_last != data.last_id {
+                out.push(format!("stream last_id {} but id generator is at {}", data.last_id, atomic_last));
+            }
+        }
+        for group in self.consumer_groups.list_groups() {
+            for p in group.verif_check_invariants() {
+                out.push(format!("pending group={} {}", group.name, p));
+            }
+        }
+        out
+    }
+}
+
 impl Clone for Stream {
     fn clone(&self) -> Self {
         let data = self.data.lock().unwrap();
